@@ -36,6 +36,8 @@ JsonChar(c) ==
   ELSE IF c = 10 THEN <<cBSLASH, 110>>
   ELSE IF c = 9 THEN <<cBSLASH, 116>>
   ELSE IF c = 13 THEN <<cBSLASH, 114>>
+  ELSE IF c = 8 THEN <<cBSLASH, 98>>
+  ELSE IF c = 12 THEN <<cBSLASH, 102>>
   ELSE IF c < 32 THEN U4(c)
   ELSE <<c>>
 JsonStrBody(s) == Concat([i \in DOMAIN s |-> JsonChar(s[i])])
